@@ -451,6 +451,42 @@ var inplaceLib = []string{"slices.Delete", "slices.DeleteFunc", "slices.Sort", "
 // WritesFrom lists the writes through non-fresh references in the library
 // functions reachable from roots.
 // paramRoot returns the parameter an address/reference is derived from, if any.
+// isSharedCellMutator: methods and functions of sync/atomic and sync.Map that change the cell their
+// first argument points to.  They are race-free, so a lock analysis does not see them, but they are
+// writes all the same.
+func isSharedCellMutator(name string) bool {
+	mut := []string{"Store", "Swap", "CompareAndSwap", "Add", "And", "Or", "LoadOrStore", "LoadAndDelete", "Delete", "CompareAndDelete", "Clear"}
+	switch {
+	case strings.HasPrefix(name, "(*sync/atomic."), strings.HasPrefix(name, "(*sync.Map)."):
+		m := name[strings.LastIndex(name, ".")+1:]
+		for _, x := range mut {
+			if m == x {
+				return true
+			}
+		}
+	case strings.HasPrefix(name, "sync/atomic."):
+		m := strings.TrimPrefix(name, "sync/atomic.")
+		for _, x := range mut {
+			if strings.HasPrefix(m, x) {
+				return true
+			}
+		}
+	}
+	return false
+}
+
+// cellKey names the atomic cell / concurrent map an address denotes: the struct field or the
+// package-level variable; anything else is named by the operation (and then always counted).
+func cellKey(addr ssa.Value, op string) string {
+	if n, f, ok := fieldOf(addr); ok {
+		return fieldKey(n, f)
+	}
+	if g, ok := addr.(*ssa.Global); ok {
+		return "global " + g.Name()
+	}
+	return op
+}
+
 func paramRoot(v ssa.Value, depth int) *ssa.Parameter {
 	if depth > 8 {
 		return nil
@@ -534,6 +570,32 @@ func (e *Eff) WritesFrom(roots ...*ssa.Function) []Write {
 	}
 	sort.Slice(fns, func(i, j int) bool { return fns[i].String() < fns[j].String() })
 	var out []Write
+	// atomic cells / concurrent maps whose content some reachable function reads back
+	cellsRead := map[string]bool{}
+	for _, fn := range fns {
+		eachInstr(fn, func(_ *ssa.BasicBlock, in ssa.Instruction) {
+			ci, ok := in.(ssa.CallInstruction)
+			if !ok || len(ci.Common().Args) == 0 {
+				return
+			}
+			for _, cal := range e.p.Callees(ci) {
+				name := calleeName(cal)
+				if !strings.HasPrefix(name, "(*sync/atomic.") && !strings.HasPrefix(name, "(*sync.Map).") && !strings.HasPrefix(name, "sync/atomic.") {
+					continue
+				}
+				m := name[strings.LastIndex(name, ".")+1:]
+				reads := strings.HasPrefix(m, "Load") || strings.HasPrefix(m, "CompareAnd") || m == "Range" || strings.HasPrefix(m, "Swap")
+				if v, isVal := in.(ssa.Value); isVal && !reads && (strings.HasPrefix(m, "Add") || strings.HasPrefix(m, "And") || strings.HasPrefix(m, "Or")) {
+					if rs := v.Referrers(); rs != nil && len(*rs) > 0 {
+						reads = true
+					}
+				}
+				if reads {
+					cellsRead[cellKey(ci.Common().Args[0], name)] = true
+				}
+			}
+		})
+	}
 	for _, fn := range fns {
 		e.cur = fn
 		e.memo = map[ssa.Value]int{}
@@ -594,6 +656,16 @@ func (e *Eff) WritesFrom(roots ...*ssa.Function) []Write {
 						if strings.HasPrefix(name, p) && len(cc.Args) > 0 && !e.fresh(cc.Args[0]) {
 							out = append(out, Write{fn, in, "inplace", name, "in-place library operation on a slice not allocated by this query"})
 						}
+					}
+					if isSharedCellMutator(name) && len(cc.Args) > 0 && !e.fresh(cc.Args[0]) {
+						if deferToCaller(fn, cc.Args[0]) {
+							continue
+						}
+						what := cellKey(cc.Args[0], name)
+						if !cellsRead[what] && what != name {
+							continue // a write-only cell (statistics counter): no query reads it back
+						}
+						out = append(out, Write{fn, in, "store", what, name + " on an atomic cell / concurrent map not allocated by this query (race-free, but state that later queries read)"})
 					}
 				}
 			}
